@@ -600,6 +600,12 @@ func c05RunPipes(c c05Case) (out c05Out) {
 		if !pending || !returned || time.Since(t0) > 5*time.Second {
 			break
 		}
+		// both directions have returned, so every detached closer has been started: if none is left,
+		// no further Close call can come (a state, not a matter of timing)
+		if _, closers, _ := c05RelayCensus(); closers == 0 {
+			evs = w.events()
+			break
+		}
 		if i < 100 {
 			runtime.Gosched()
 		} else {
